@@ -1283,7 +1283,16 @@ static ASTNode *parse_primary(Stage1Parser *p) {
             int line = tok->line;
             int column = tok->column;
             advance(p);  /* consume 'not' */
+            /* Unary operators nest by recursion: count them against the depth limit */
+            p->recursion_depth++;
+            if (p->recursion_depth > MAX_RECURSION_DEPTH) {
+                parser_error(p, line, column, "Error at line %d, column %d: Expression recursion depth exceeded maximum (%d).\n",
+                        line, column, MAX_RECURSION_DEPTH);
+                p->recursion_depth--;
+                return NULL;
+            }
             ASTNode *operand = parse_operand_postfix(p, parse_primary(p));
+            p->recursion_depth--;
             if (!operand) return NULL;
             ASTNode *not_node = create_node(AST_PREFIX_OP, line, column);
             not_node->as.prefix_op.op = TOKEN_NOT;
@@ -1298,7 +1307,16 @@ static ASTNode *parse_primary(Stage1Parser *p) {
             int line = tok->line;
             int column = tok->column;
             advance(p);  /* consume '-' */
+            /* Unary operators nest by recursion: count them against the depth limit */
+            p->recursion_depth++;
+            if (p->recursion_depth > MAX_RECURSION_DEPTH) {
+                parser_error(p, line, column, "Error at line %d, column %d: Expression recursion depth exceeded maximum (%d).\n",
+                        line, column, MAX_RECURSION_DEPTH);
+                p->recursion_depth--;
+                return NULL;
+            }
             ASTNode *operand = parse_operand_postfix(p, parse_primary(p));
+            p->recursion_depth--;
             if (!operand) return NULL;
             ASTNode *neg_node = create_node(AST_PREFIX_OP, line, column);
             neg_node->as.prefix_op.op = TOKEN_MINUS;
